@@ -15,6 +15,12 @@
   Tie to /repo: the correspondence run drives the real role/class unmarshallers,
   GenerateTaskDescriptors, makeTaskForMesosResources and configureTasks.
 
+  `configure` = `configureWith codeCfg` is the code as it is: before a task's local bind
+  map is used, configureTasks goes through the task's channel declarations and rejects
+  two channels naming one global alias (`aliasScan`). `legacyCfg` is the code before that
+  repair (aliases de-duplicated across local bind maps only); the refutation
+  `C13_finding_alias_redefined_within_task` is a statement about `legacyCfg`.
+
   Last section: workflows with ITERATORS (targets and aliases are expressions; one
   generated role per value of a range): `expand` — each generated role resolves its
   OWN copy of the declarations against its OWN variables — and the theorems that
@@ -24,8 +30,19 @@
   under all settings of the loader's concurrency switches.
 -/
 import ControlModel.Proofs.Channels
+import ControlModel.Gen.C13Facts
 
 open Channels
+
+/-! ## the configuration of the model is the code -/
+
+/-- `codeCfg` is what configureTasks does NOW (go/ast over core/task/manager.go, regenerated on every
+    check): inside the loop over the tasks, before a task's local bind map is read, a loop over the
+    task's channel declarations returns the "illegal redefinition of global channel alias" error for
+    a channel whose alias another channel (another name) of the same task has claimed. Breaks if the
+    check is removed, moved behind the bind-map loop or loses its guard. The exact behaviour of the
+    loop (`aliasScan`) is tied by the differential run. -/
+theorem C13_alias_check_is_code : codeCfg.aliasPerTask = Gen.C13.declaredAliasesCheckedPerTask := by decide
 
 /-! ## what an address looks like -/
 
@@ -168,7 +185,11 @@ theorem C13_explicit_passthrough (tasks : List Task) (res : List Props) (hwf : W
 theorem C13_unmatched_fails (tasks : List Task) (hu : Unmatched tasks) :
     ∃ e, configure tasks = .error e := by
   obtain ⟨t, ht, o, ho, hne, hno⟩ := hu
-  unfold configure
+  rcases configureWith_cases codeCfg tasks with ⟨_, _, he⟩ | ⟨_, he⟩
+  · exact ⟨_, he⟩
+  show ∃ e, configureWith codeCfg tasks = .error e
+  rw [he]
+  unfold wire
   split
   · exact ⟨_, rfl⟩
   · rename_i bm hb
@@ -200,7 +221,11 @@ theorem C13_unmatched_fails (tasks : List Task) (hu : Unmatched tasks) :
 /-- …and the configuration fails with "unmatched" only if some target really matches nothing. -/
 theorem C13_unmatched_only_if (tasks : List Task) (h : configure tasks = .error .unmatched) :
     Unmatched tasks := by
-  unfold configure at h
+  have h : wire tasks = .error .unmatched := by
+    rcases configureWith_cases codeCfg tasks with ⟨_, _, he⟩ | ⟨_, he⟩
+    · rw [show configure tasks = configureWith codeCfg tasks from rfl, he] at h; cases h
+    · rw [← he]; exact h
+  unfold wire at h
   split at h
   · rename_i e hb
     cases h
@@ -229,15 +254,19 @@ theorem C13_unmatched_only_if (tasks : List Task) (h : configure tasks = .error 
 /-- Two tasks whose local bind maps carry the same global alias with different
     endpoints (different host, port, path or transport): the configuration is
     rejected with "illegal redefinition of global channel alias" — whatever the
-    order of the tasks and however many other tasks there are. -/
-theorem C13_alias_conflict_rejected (tasks : List Task) (hwf : WF tasks)
+    order of the tasks and however many other tasks there are (before and after the
+    repair: `cfg` is arbitrary). -/
+theorem C13_alias_conflict_rejected (cfg : Cfg) (tasks : List Task) (hwf : WF tasks)
     (b1 b2 : Task) (h1 : b1 ∈ tasks) (h2 : b2 ∈ tasks)
     (kv1 kv2 : String × Endpoint) (hk1 : kv1 ∈ b1.loc) (hk2 : kv2 ∈ b2.loc)
     (ha : isAlias kv1.1 = true) (hsame : kv1.1 = kv2.1)
     (hdiff : kv1.2.toTarget b1.host ≠ kv2.2.toTarget b2.host) :
-    configure tasks = .error .aliasConflict := by
+    configureWith cfg tasks = .error .aliasConflict := by
   obtain ⟨hs, hv, hr⟩ := wf_claims hwf
-  unfold configure
+  rcases configureWith_cases cfg tasks with ⟨_, _, he⟩ | ⟨_, he⟩
+  · exact he
+  rw [he]
+  unfold wire
   split
   · rename_i e hb
     rw [build_error hb]
@@ -251,15 +280,21 @@ theorem C13_alias_conflict_rejected (tasks : List Task) (hwf : WF tasks)
     rw [claimOf_target, claimOf_target] at this
     exact hdiff this
 
-/-- Conversely the alias error is raised only when an alias is claimed more than once. -/
+/-- Conversely the alias error is raised only when an alias is claimed more than once: by the
+    local bind maps of two tasks, or by two channels of one task. -/
 theorem C13_alias_error_only_if_shared (tasks : List Task) (hwf : WF tasks)
-    (h : configure tasks = .error .aliasConflict) : shared (claims tasks) = true := by
+    (h : configure tasks = .error .aliasConflict) :
+    shared (claims tasks) = true ∨ ∃ t ∈ tasks, AliasTwice t := by
+  rcases configureWith_cases codeCfg tasks with ⟨_, hany, _⟩ | ⟨_, he⟩
+  · exact Or.inr ((any_redefines_iff tasks).mp hany)
+  left
+  have h : wire tasks = .error .aliasConflict := by rw [← he]; exact h
   cases hsh : shared (claims tasks) with
   | true => rfl
   | false =>
     exfalso
     obtain ⟨bm, hb⟩ := build_ok_of_not_shared (bm := []) hsh (claims_sane hwf.2) (fun _ _ _ => rfl)
-    unfold configure at h
+    unfold wire at h
     rw [hb] at h
     obtain ⟨t, _, hte⟩ := mapE_error h
     unfold taskProps at hte
@@ -278,19 +313,20 @@ theorem C13_alias_equal_accepted (tasks : List Task) (hk : keysSane (claims task
     ∃ bm, build [] (claims tasks) = .ok bm :=
   build_ok_of_equal_ipc (claims_sane hk) heq (fun _ _ _ v hv => by simp [Assoc.get] at hv)
 
-/-- FULL-STRENGTH clause 4 at the level of DECLARATIONS (kept visible; FALSE of
-    the code, see `C13_finding_alias_redefined_within_task`): whenever two inbound
-    channels — of any tasks — claim one global alias for different endpoints, the
-    configuration is rejected. -/
-def C13_alias_declared_full : Prop :=
-  ∀ (tasks : List Task), WF tasks → clash (allDeclClaims tasks) = true → ∃ e, configure tasks = .error e
+/-- FULL-STRENGTH clause 4 at the level of DECLARATIONS: whenever two inbound
+    channels — of any tasks, or of ONE task — claim one global alias for different
+    endpoints, the configuration is rejected. TRUE of the code as it is
+    (`C13_alias_declared_code`), FALSE of the code as it was
+    (`C13_finding_alias_redefined_within_task`). -/
+def C13_alias_declared_full (cfg : Cfg) : Prop :=
+  ∀ (tasks : List Task), WF tasks → clash (allDeclClaims tasks) = true → ∃ e, configureWith cfg tasks = .error e
 
-/-- What IS proved: the same whenever every declared alias made it into its
-    task's local bind map with the declaring channel's endpoint — which the launch
-    guarantees unless two channels of ONE task name the same alias. -/
-theorem C13_alias_declared_partial (tasks : List Task) (hwf : WF tasks)
+/-- What held before the repair as well (`cfg` arbitrary): the same whenever every declared
+    alias made it into its task's local bind map with the declaring channel's endpoint — which
+    the launch guarantees unless two channels of ONE task name the same alias. -/
+theorem C13_alias_declared_partial (cfg : Cfg) (tasks : List Task) (hwf : WF tasks)
     (hadv : ∀ t ∈ tasks, aliasesAdvertised t) (hcl : clash (allDeclClaims tasks) = true) :
-    configure tasks = .error .aliasConflict := by
+    configureWith cfg tasks = .error .aliasConflict := by
   obtain ⟨c, hc, d, hd, _, _, hk, hne⟩ := clash_mem hcl
   obtain ⟨t1, ht1, hc1⟩ := mem_allDeclClaims.mp hc
   obtain ⟨t2, ht2, hd2⟩ := mem_allDeclClaims.mp hd
@@ -298,7 +334,7 @@ theorem C13_alias_declared_partial (tasks : List Task) (hwf : WF tasks)
   obtain ⟨ch2, hch2, hg2, hl2, hk2, hh2⟩ := mem_declClaims hd2
   obtain ⟨kv1, hkv1, hkk1, hkr1⟩ := hadv t1 ht1 ch1 hch1 hg1 _ hl1
   obtain ⟨kv2, hkv2, hkk2, hkr2⟩ := hadv t2 ht2 ch2 hch2 hg2 _ hl2
-  apply C13_alias_conflict_rejected tasks hwf t1 t2 ht1 ht2 kv1 kv2 hkv1 hkv2
+  apply C13_alias_conflict_rejected cfg tasks hwf t1 t2 ht1 ht2 kv1 kv2 hkv1 hkv2
   · rw [hkk1]; exact isAlias_aliasKey _
   · rw [hkk1, hkk2, ← hk1, ← hk2, hk]
   · intro heq
@@ -307,29 +343,75 @@ theorem C13_alias_declared_partial (tasks : List Task) (hwf : WF tasks)
     rw [hh1, hh2, ← hkr1, ← hkr2]
     exact heq.symm
 
-/-- The finding, machine-checked on the model: one task whose template binds
-    `data` and `mon`, both with `global: g`. The launch gives `data` port 9000 and
-    `mon` port 9001 and keeps `::g → 9001`; two different endpoints claim `::g`,
-    the configuration goes through, and whoever connects to `::g` reaches `mon`. -/
-theorem C13_finding_alias_redefined_within_task : ¬ C13_alias_declared_full := by
+/-- The per-task scan of the declarations (`aliasScan`: the `aliasOwners` loop of configureTasks)
+    rejects exactly the tasks two of whose channels, of different names, name one alias. -/
+theorem C13_alias_scan_exact (t : Task) : redefines t = true ↔ AliasTwice t := redefines_iff t
+
+/-- A task two of whose inbound channels name one alias is rejected — whatever its local bind
+    map kept of the alias, whatever the other tasks. -/
+theorem C13_alias_twice_rejected (tasks : List Task) (t : Task) (ht : t ∈ tasks) (h2 : AliasTwice t) :
+    configure tasks = .error .aliasConflict := by
+  rcases configureWith_cases codeCfg tasks with ⟨_, _, he⟩ | ⟨hor, _⟩
+  · exact he
+  · rcases hor with h | h
+    · cases h
+    · have := (any_redefines_iff tasks).mpr ⟨t, ht, h2⟩
+      rw [this] at h; cases h
+
+/-- THE FORMER FULL-STRENGTH STATEMENT, PROVED FOR THE CODE AS IT IS: two declared claims on one
+    alias with different endpoints — across tasks or within one — always fail the configuration.
+    Either some task names an alias twice (rejected by the scan), or no task does, and then the
+    launch postcondition makes every declared alias an entry of its task's local bind map with
+    the declaring channel's own endpoint, where the de-duplication of the bind-map loop finds it. -/
+theorem C13_alias_declared_code : C13_alias_declared_full codeCfg := by
+  intro tasks hwf hcl
+  by_cases h2 : ∃ t ∈ tasks, AliasTwice t
+  · obtain ⟨t, ht, h2⟩ := h2
+    exact ⟨_, C13_alias_twice_rejected tasks t ht h2⟩
+  · refine ⟨_, C13_alias_declared_partial codeCfg tasks hwf (fun t ht => ?_) hcl⟩
+    exact advertised_of_not_twice (hwf.1 t ht).1 (fun h => h2 ⟨t, ht, h⟩)
+
+/-- The finding (FIXED: a statement about the code as it was, `legacyCfg`), machine-checked on
+    the model: one task whose template binds `data` and `mon`, both with `global: g`. The launch
+    gives `data` port 9000 and `mon` port 9001 and keeps `::g → 9001`; two different endpoints
+    claim `::g`, the configuration went through, and whoever connected to `::g` reached `mon`. -/
+theorem C13_finding_alias_redefined_within_task : ¬ C13_alias_declared_full legacyCfg := by
   intro h
   let w : List Task :=
     [ { path := "root.a", host := "h1",
         inbound := [⟨"data", .default, .tcp, "", "g"⟩, ⟨"mon", .default, .tcp, "", "g"⟩], outbound := [],
         loc := [("::g", .tcp "*" 9001 .default), ("data", .tcp "*" 9000 .default), ("mon", .tcp "*" 9001 .default)] } ]
   obtain ⟨e, he⟩ := h w (by decide) (by decide)
-  have hok : configure w =
+  have hok : configureWith legacyCfg w =
       .ok [[("data", ⟨.bind, "tcp://*:9000", .default⟩), ("mon", ⟨.bind, "tcp://*:9001", .default⟩)]] := by decide
   rw [hok] at he
   cases he
 
+/-- …and the same witness is rejected by the code as it is. -/
+theorem C13_witness_alias_redefined_rejected :
+    configure
+      [ { path := "root.a", host := "h1",
+          inbound := [⟨"data", .default, .tcp, "", "g"⟩, ⟨"mon", .default, .tcp, "", "g"⟩], outbound := [],
+          loc := [("::g", .tcp "*" 9001 .default), ("data", .tcp "*" 9000 .default), ("mon", .tcp "*" 9001 .default)] } ]
+      = .error .aliasConflict := by decide
+
+/-- The repair changes nothing for a workflow in which no task names an alias twice: the outcome
+    is the one of the code as it was, for every such list of tasks. -/
+theorem C13_repair_conservative (tasks : List Task) (h : ∀ t ∈ tasks, ¬ AliasTwice t) :
+    configure tasks = configureWith legacyCfg tasks := by
+  rw [legacy_eq_wire]
+  rcases configureWith_cases codeCfg tasks with ⟨_, hany, _⟩ | ⟨_, he⟩
+  · obtain ⟨t, ht, h2⟩ := (any_redefines_iff tasks).mp hany
+    exact absurd h2 (h t ht)
+  · exact he
+
 /-! ## the model meets the Spec -/
 
-/-- Everything together: on every well-formed input outside the two excluded
-    classes the model's outcome satisfies the full-strength Spec — the predicate
-    the correspondence run evaluates on the implementation's outcome. -/
-theorem C13_model_meets_spec (tasks : List Task) (hwf : WF tasks) (hnt : noInboundTarget tasks = true)
-    (hadv : ∀ t ∈ tasks, aliasesAdvertised t) :
+/-- Everything together: on every well-formed input outside the ONE excluded class that is
+    left (inbound channels with a target of their own) the model's outcome satisfies the
+    full-strength Spec — the predicate the correspondence run evaluates on the
+    implementation's outcome. -/
+theorem C13_model_meets_spec (tasks : List Task) (hwf : WF tasks) (hnt : noInboundTarget tasks = true) :
     Spec tasks (configure tasks) := by
   cases hcfg : configure tasks with
   | ok res =>
@@ -343,16 +425,37 @@ theorem C13_model_meets_spec (tasks : List Task) (hwf : WF tasks) (hnt : noInbou
       | false => simp [hcl]
       | true =>
         exfalso
-        have := C13_alias_declared_partial tasks hwf hadv hcl
-        rw [hcfg] at this; cases this
+        obtain ⟨e, he⟩ := C13_alias_declared_code tasks hwf hcl
+        rw [show configureWith codeCfg tasks = configure tasks from rfl, hcfg] at he; cases he
   | error e =>
     cases e with
     | unmatched => exact C13_unmatched_only_if tasks hcfg
     | aliasConflict => exact C13_alias_error_only_if_shared tasks hwf hcfg
 
-/-- Without the two hypotheses the code still meets the weakened Spec (bind
-    clause only for target-less inbound channels, alias claims as they appear in
-    the local bind maps) — on EVERY well-formed input. -/
+/-- Without the hypothesis the code still meets the Spec weakened in the bind clause only (it is
+    demanded only of target-less inbound channels; alias claims AS DECLARED) — on EVERY
+    well-formed input. -/
+theorem C13_model_meets_spec_up_to_inbound_target (tasks : List Task) (hwf : WF tasks) :
+    SpecW true false tasks (configure tasks) := by
+  cases hcfg : configure tasks with
+  | ok res =>
+    refine ⟨(mapE_ok (configure_ok hcfg).choose_spec.2).1, C13_matched tasks res hwf hcfg,
+      C13_explicit_passthrough tasks res hwf hcfg, ?_, ?_⟩
+    · intro hu
+      obtain ⟨e, he⟩ := C13_unmatched_fails tasks hu
+      rw [hcfg] at he; cases he
+    · cases hcl : clash (allDeclClaims tasks) with
+      | false => simp [hcl]
+      | true =>
+        exfalso
+        obtain ⟨e, he⟩ := C13_alias_declared_code tasks hwf hcl
+        rw [show configureWith codeCfg tasks = configure tasks from rfl, hcfg] at he; cases he
+  | error e =>
+    cases e with
+    | unmatched => exact C13_unmatched_only_if tasks hcfg
+    | aliasConflict => exact C13_alias_error_only_if_shared tasks hwf hcfg
+
+/-- …and the doubly weakened Spec (alias claims as they appear in the local bind maps). -/
 theorem C13_model_meets_weak_spec (tasks : List Task) (hwf : WF tasks) :
     SpecW true true tasks (configure tasks) := by
   cases hcfg : configure tasks with
@@ -396,8 +499,9 @@ theorem C13_launch_postcondition (path host : String) (inb : List Inbound) (out 
         aliasKey c.global = aliasKey c'.global → c.name = c'.name) → aliasesAdvertised t) := by
   intro t
   constructor
-  · simp only [launchOk, Bool.and_eq_true, List.all_eq_true, List.any_eq_true, decide_eq_true_eq]
-    constructor
+  · simp only [launchOk, Bool.and_eq_true, List.all_eq_true, List.any_eq_true, decide_eq_true_eq,
+      Bool.or_eq_true, Bool.not_eq_true']
+    refine ⟨⟨⟨?_, ?_⟩, ?_⟩, hna⟩
     · intro c hc
       obtain ⟨e, he⟩ := exists_zip_of_mem hlen hc
       show (match Assoc.get (allocLocal [] inb eps) c.name with | some e => freshFor c e | none => false) = true
@@ -411,6 +515,12 @@ theorem C13_launch_postcondition (path host : String) (inb : List Inbound) (out 
         rcases hpe with rfl | ⟨hg, rfl⟩
         · exact ⟨p.1, hc, Or.inl rfl, hget⟩
         · exact ⟨p.1, hc, Or.inr ⟨hg, rfl⟩, hget⟩
+    · intro c hc
+      cases hg : c.global.isEmpty with
+      | true => exact Or.inl rfl
+      | false =>
+        obtain ⟨e, he⟩ := exists_zip_of_mem hlen hc
+        exact Or.inr (alloc_alias_present he hg)
   · intro hal c hc hg e he
     obtain ⟨e', he'⟩ := exists_zip_of_mem hlen hc
     have h1 : Assoc.get (allocLocal [] inb eps) c.name = some e' := alloc_name hnd hna he'
@@ -543,11 +653,16 @@ theorem C13_plain_workflow_is_its_own_template (f : Forest) :
 theorem C13_model_meets_spec_template (classes : List (String × Class)) (root : TForest)
     (launch : List (String × String × BindMap))
     (hwf : WF (templateTasks classes root launch))
-    (hnt : noInboundTarget (templateTasks classes root launch) = true)
-    (hadv : ∀ t ∈ templateTasks classes root launch, aliasesAdvertised t) :
+    (hnt : noInboundTarget (templateTasks classes root launch) = true) :
     SpecT classes root launch ((templateDecls root).map TaskDecl.seen)
       (configure (templateTasks classes root launch)) :=
-  ⟨rfl, C13_model_meets_spec _ hwf hnt hadv⟩
+  ⟨rfl, C13_model_meets_spec _ hwf hnt⟩
+
+theorem C13_model_meets_spec_up_to_inbound_target_template (classes : List (String × Class)) (root : TForest)
+    (launch : List (String × String × BindMap)) (hwf : WF (templateTasks classes root launch)) :
+    SpecTW true false classes root launch ((templateDecls root).map TaskDecl.seen)
+      (configure (templateTasks classes root launch)) :=
+  ⟨rfl, C13_model_meets_spec_up_to_inbound_target _ hwf⟩
 
 theorem C13_model_meets_weak_spec_template (classes : List (String × Class)) (root : TForest)
     (launch : List (String × String × BindMap)) (hwf : WF (templateTasks classes root launch)) :
